@@ -140,6 +140,11 @@ var DefTexts = []string{
 	"\ufeffbom", "edge\ufeff", "mid\ufeffdle", `lit\u2028eral \u003c`, "010", "0x1F", "0b101", "0o17", "08", ".25e2", "1e-320", "5e-324",
 }
 
+func init() {
+	// numerals longer than the shortest decimal form of any float64 (leading zeros, long fractions)
+	DefTexts = append(DefTexts, strings.Repeat("0", 350)+"7", "1."+strings.Repeat("0", 340))
+}
+
 type GenCfg struct {
 	Names, Prefixes, Texts []string
 	MaxDepth, MaxKids      int
